@@ -286,6 +286,35 @@ func execC10(r *Run) {
 		ops = append(ops, porcupine.Operation{ClientId: q.id % 6, Input: q.in, Call: q.call, Output: out, Return: q.ret})
 		r.Logf("Q%d %s -> err=%v exists=%v actual=%d current=%d [%d,%d]", q.id, q.in.kind, out.err, out.exists, out.actual, out.current, q.call, q.ret)
 	}
+	// A returned proof is a value: what the caller does with it later (the HTTP
+	// handler encodes it after the locks are gone) must not depend on insertions
+	// that follow. One finished query in three is therefore judged only after
+	// the next insertion has completed.
+	type heldQ struct {
+		q    *c10Query
+		step int
+	}
+	var held []heldQ
+	judgeLater := func(q *c10Query) {
+		if subRng(r.Tape.Seed, uint64(q.id), "c10-hold").IntN(3) == 0 {
+			held = append(held, heldQ{q, r.cur})
+			r.Count("probe.proofs_consumed_after_a_later_insertion")
+			return
+		}
+		judge(q)
+	}
+	flushHeldBefore := func(step int) {
+		var keep []heldQ
+		for _, h := range held {
+			if h.step < step {
+				judge(h.q)
+			} else {
+				keep = append(keep, h)
+			}
+		}
+		held = keep
+	}
+	flushHeld := func() { flushHeldBefore(1 << 30) }
 	recordAdd := func(digests [][]byte, base uint64, failed bool, call, ret int64) {
 		in := c10Input{kind: "add"}
 		for _, d := range digests {
@@ -307,6 +336,7 @@ func execC10(r *Run) {
 			if e.rlog.Len() > before {
 				recordAdd(e.rlog.Digests[before:], before, false, call, ret)
 			}
+			flushHeld()
 		case "q":
 			rng := r.StepRng("q")
 			for k := 0; k < s.K; k++ {
@@ -314,7 +344,7 @@ func execC10(r *Run) {
 				if !q.finished {
 					r.Fail("query-returns", "a query blocked although no insertion was in flight")
 				}
-				judge(q)
+				judgeLater(q)
 			}
 		case "cadd":
 			if !nd.up || e.leader != nd.id {
@@ -368,7 +398,7 @@ func execC10(r *Run) {
 					for k := 0; k < int(s.Y); k++ {
 						q := startQuery(rng, raw)
 						if q.finished {
-							judge(q)
+							judgeLater(q)
 						} else {
 							blocked = append(blocked, q)
 						}
@@ -399,13 +429,15 @@ func execC10(r *Run) {
 				}
 				q.ret = tick()
 				q.finished = true
-				judge(q)
+				judgeLater(q)
 			}
 			pendingQ = nil
+			flushHeldBefore(i) // proofs returned before this insertion are consumed after it
 		}
 	}
 	_ = pendingQ
 	r.cur = len(r.Tape.Steps)
+	flushHeld()
 	if len(ops) > 400 {
 		ops = ops[len(ops)-400:]
 		// a truncated history needs the right initial state: skip the check instead
